@@ -105,6 +105,7 @@ type nopReaderResult struct {
 	fn       string
 	pos      string
 	style    string // loop | recursion
+	tagExits []string // conditions on the tag of the landing word under which the NOP branch returns
 	nopPaths int
 	net      []Aff  // net cursor change on continuing NOP paths
 	payload  string // payload atom
@@ -234,6 +235,19 @@ func analyseNopReaders(c *Ctx) []*nopReaderResult {
 							why = "returns " + p.Str(sp.RetNode)
 						}
 						r.exits = append(r.exits, why)
+						// a NOP branch may give up because the skip is invalid or the tape ends — not because of what the
+						// word it lands on is: leaving when the landing word is another deleted range has the behaviour of
+						// not re-examining it at all (adjacent deleted ranges are misread)
+						for _, cd := range sp.Conds {
+							if cd.At <= nt.at || cd.Other != "" {
+								continue
+							}
+							for _, side := range []Aff{cd.L, cd.R} {
+								if a, ok := side.SingleAtom(); ok && strings.HasPrefix(a, "(") && strings.HasSuffix(a, ">>56)") && strings.Contains(a, "Tape[") && a[1:len(a)-len(">>56)")] != nt.tapeWord {
+									r.tagExits = append(r.tagExits, cd.String())
+								}
+							}
+						}
 						continue
 					}
 					fin := finalOf(env, catom)
@@ -301,6 +315,9 @@ func ruleNopReaders(c *Ctx) {
 		if len(r.problems) > 0 {
 			c.Undecided(site, r.pos, strings.Join(r.problems, "; "))
 			continue
+		}
+		if len(r.tagExits) > 0 {
+			c.Bad(site+":landing", r.pos, "after stepping over a deleted range the function returns depending on the tag of the word it lands on ("+r.tagExits[0]+") instead of dispatching on it again: adjacent deleted ranges are misread", "delete two adjacent members, then read")
 		}
 		if len(r.net) == 0 {
 			c.Bad(site, r.pos, "after stepping over a deleted range the function does not re-examine the landing word (no path from the NOP branch back to the dispatch: exits "+strings.Join(r.exits, ", ")+"): adjacent deleted ranges are misread", "delete two adjacent members, then read")
